@@ -115,8 +115,10 @@ theorem reject_unchanged_decoder (s : DecSt) (r : DecReq) (h : (decCtl s r).2.co
 
 /-- **reject_unchanged** (multistream / surround / projection encoder): whatever request fails —
     including a fanned-out setter that some stream refuses — no stream and no multistream field
-    has changed (true of the code since the repair a0f32f9c of OPUS_SET_FORCE_CHANNELS).
-    `MsInv` holds after creation and is kept by every request (`ctl_inv_multistream`). -/
+    has changed (true of the code since the repairs a0f32f9c of OPUS_SET_FORCE_CHANNELS and 9ffbe457
+    of OPUS_SET_APPLICATION, whose fan-out now rolls back; unconditional in the streams' `first`
+    flags).  `MsInv` (per-stream `EncInv`, coupled streams first) holds after creation and is kept
+    by every request and every encode call (`ctl_inv_multistream`, `ms_encode_keeps_inv`). -/
 theorem reject_unchanged_multistream (s : MsEncSt) (hi : MsInv s) (r : MsEncReq) (h : (msEncCtl s r).2.code ≠ 0) :
     (msEncCtl s r).1 = s :=
   msEncCtl_error_unchanged hi r h
@@ -162,8 +164,8 @@ theorem ctl_inv_decoder (fs ch : Int) (h : decArgsOk fs ch = true) :
     DecInv (decInit fs ch) ∧ (∀ s r, DecInv s → DecInv (decCtl s r).1) ∧ (∀ s o, DecInv s → DecInv (decAdopt s o)) :=
   ⟨decInit_inv h, fun _ r hi => decCtl_inv hi r, fun _ o hi => decAdopt_inv hi o⟩
 
-/-- **ctl_inv** (multistream encoder): `MsInv` (every stream satisfies `CtlInv ∧ DInv`, streams
-    agree on application/first, coupled streams first) holds after creation and after any request. -/
+/-- **ctl_inv** (multistream encoder): `MsInv` (every stream satisfies `CtlInv ∧ DInv`, coupled
+    streams first) holds after creation and after any request. -/
 theorem ctl_inv_multistream :
     (∀ fs channels streams coupled mapping app sur amb lfe s,
         msEncInit fs channels streams coupled mapping app sur amb lfe = .ok s → MsInv s) ∧
@@ -174,9 +176,9 @@ theorem ctl_inv_multistream :
     writes (rate allocation → OPUS_SET_BITRATE, surround → OPUS_SET_BANDWIDTH / FORCE_MODE /
     FORCE_CHANNELS / ENERGY_MASK, ambisonics → FORCE_MODE, CBR last-stream bit-rate) go through
     `opus_encoder_ctl` and therefore stay legal for ALL values of the rate/bandwidth oracles, the
-    streams keep one application and their layout — given the monitored contract
-    `msEncodeContract` (each stream's encode call stays in the `obsRange` ranges; no stream has coded
-    a frame before the first one).  So `MsInv` holds after ANY ctl/encode history from create. -/
+    streams keep their layout — given the monitored contract `msEncodeContract` (each stream's
+    encode call stays in the `obsRange` ranges).  So `MsInv` holds after ANY ctl/encode history
+    from create, and with it `reject_unchanged_multistream`. -/
 theorem ms_encode_keeps_inv :
     (∀ (s : MsEncSt) (f b : Int) (o : MsOracle), MsInv s → msEncodeContract s f b o = true → MsInv (msEncode s f b o)) ∧
     (∀ fs channels streams coupled mapping app sur amb lfe s0 (evs : List MsEv),
@@ -477,6 +479,13 @@ example : surroundLegalB 6 1 = true ∧ surroundLegalB 9 1 = false ∧ surroundL
     surroundLayout 6 1 = .ok (4, 2, [0, 4, 1, 2, 3, 5]) ∧ projLegalB 11 = true ∧ projLegalB 5 = false := by decide +kernel
 example : (match projEncCreate 48000 4 3 2049 true with | .ok (s, st, cp) => st == 2 && cp == 2 && s.demixGain == 0 | _ => false) = true ∧
     projEncCreate 48000 5 3 2049 true = .err .allocFail ∧ projEncCreate 44100 4 3 2049 true = .err .badArg := by decide +kernel
+/-- The repaired multistream SET_APPLICATION: stream 0 before its first frame, stream 1 after it —
+    refused (stream 1), and stream 0 is rolled back. -/
+example : (match msEncCreate 8000 2 2 0 [0, 1] 2049 true with
+    | .ok s =>
+      let s1 := { s with streams := s.streams.mapIdx (fun i e => if i = 1 then { e with first := false } else e) }
+      decide (msEncCtl s1 (.set .application 2051) = (s1, .err .badArg))
+    | _ => false) = true := by decide +kernel
 /-- The repaired multistream FORCE_CHANNELS(2): refused, nothing changed. -/
 example : (match msEncCreate 48000 3 2 1 [0, 1, 2] 2049 true with
     | .ok s => decide (msEncCtl s (.set .forceChannels 2) = (s, .err .badArg))
